@@ -741,7 +741,16 @@ def _has_cycle(ctx: Ctx) -> None:
         ctx.record(R, ctx.key(dfs, "node is marked visited before the recursion"), dfs.loc(), bool(vmark) and p is None,
                    "visited.add(node) dominates the recursive calls")
     # (d) recursive result propagated
+    rec_conds = []
     for r_ in rec:
+        if r_.kind == "stmt" and isinstance(r_.ast, ast.Assign) and isinstance(r_.ast.value, ast.Call) and call_name(r_.ast.value) == dfs.name:
+            # result held in a local and tested later: the tests are the (virtual) condition atoms built from this very call
+            held = [n for n in g.nodes if n.kind == "cond" and n.virtual and n.ast is r_.ast.value]
+            if held:
+                rec_conds.extend(held)
+                continue
+        rec_conds.append(r_)
+    for r_ in rec_conds:
         ok = False
         if r_.kind == "cond":
             e = ld.expand(r_.ast)
